@@ -67,6 +67,8 @@ func c19Scratch() string {
 				os.WriteFile(filepath.Join(d, "leases4.txt"), []byte("00:11:22:33:44:55 10.0.0.5\n02:00:00:00:aa:01 10.0.0.6\n"), 0o644)
 				os.WriteFile(filepath.Join(d, "leases6.txt"), []byte("00:11:22:33:44:55 2001:db8::5\n02:00:00:00:bb:01 2001:db8::6\n"), 0o644)
 				os.WriteFile(filepath.Join(d, "bad.txt"), []byte("00:11:22:33:44:55\n"), 0o644)
+				// IPv6 addresses whose tail is written as a dotted quad, for the battery's static client
+				os.WriteFile(filepath.Join(d, "leasesmixed.txt"), []byte("00:11:22:33:44:55 2001:db8::192.0.2.1\n02:00:00:00:aa:01 ::10.0.0.6\n"), 0o644)
 				os.Mkdir(filepath.Join(d, "adir"), 0o755)
 				return
 			}
@@ -118,7 +120,7 @@ var routesTok = tokRoutes()
 // "@S/db-NEW.sqlite" = a database file that does not exist yet) so that a saved
 // case replays in another process
 func fileTokens() []string {
-	return []string{"@S/leases4.txt", "@S/leases6.txt", "@S/bad.txt", "@S/missing.txt", "@S/adir", "/dev/null", "/proc/self/nonexistent"}
+	return []string{"@S/leases4.txt", "@S/leases6.txt", "@S/leasesmixed.txt", "@S/bad.txt", "@S/missing.txt", "@S/adir", "/dev/null", "/proc/self/nonexistent"}
 }
 
 func dbTokens() []string {
